@@ -10,6 +10,7 @@ package main
 
 import (
 	"encoding/json"
+	"errors"
 	"fmt"
 	"io"
 	"log"
@@ -186,6 +187,12 @@ func main() {
 	if len(cat.changes) > 0 || dhFired {
 		// operands change under the register stores' feet: the histories below would only repeat this in many shapes
 		c.Finish(vlib.FinishOpts{Rule: "decode-history layer only: the decoder's operand objects are not stable (see the violations); the remaining layers were not run"})
+	}
+	var ca *cellAliasErr
+	if errors.As(err, &ca) {
+		c.Violation("C07|register-table|operand-code-resolves-to-the-cell-of-another-register|"+ca.Kind, ca.Msg,
+			map[string]any{"register": ca.Name, "cell": ca.Cell, "intended_cell": ca.Intended})
+		c.Finish(vlib.FinishOpts{Rule: "operand catalogue only: a register name resolves to another register's cell (see the violation); the remaining layers were not run"})
 	}
 	if err != nil {
 		c.Inconclusive("operand harvest failed (the decoder did not yield the intended operand): " + err.Error())
